@@ -236,6 +236,8 @@ func main() {
 		{"v1-devaddr", "devaddr", []string{"sf"}, 1, 3, nil},
 		// below the ephemeral-output height a siafund output may be spent in the block that creates it - but only once
 		{"v2-legacy-sf", "v2only", []string{"sf"}, 1, 3, []chain.AbsOut{{1199, "B"}}},
+		// before the ephemeral-output height: a contract of no value formed without inputs would be replayable under one id
+		{"v2-legacy-contract", "v2only", []string{"form2"}, 2, 2, []chain.AbsOut{{600000, "B"}}},
 		// three uses of one v2 contract in one block (revise, renew, then anything)
 		{"v2-renewal-3", "v2only", []string{"form2", "rev2", "renew2"}, 2, 3, []chain.AbsOut{{600000, "B"}, {300000, "B"}}},
 	}
@@ -252,7 +254,7 @@ func main() {
 		if f.shape == "mixed" {
 			p.AllowH, p.RequireH, p.EphH = 2, 4, 3
 		}
-		if f.name == "v2-legacy-sf" {
+		if f.name == "v2-legacy-sf" || f.name == "v2-legacy-contract" {
 			p.EphH = 100
 		}
 		if f.name == "v1-devaddr" {
@@ -275,6 +277,9 @@ func main() {
 		}
 		if f.name == "v2-confuse" {
 			cfg.Defects = []string{"confuse"}
+		}
+		if f.name == "v2-legacy-contract" {
+			cfg.Defects = []string{"formation", "reuse"}
 		}
 		o := opts
 		o.Exhaustive = true
@@ -300,7 +305,7 @@ func main() {
 	}
 	c.Traces(int64(total.Behaviours))
 	c.Count(int64(total.Steps), nontriv)
-	for _, need := range []string{"v2:pay!intx", "v1:pay!intx", "v2:pay!reuse", "v1:pay!reuse", "v2:reuse-gone", "v1:reuse-gone", "v2:sf!reuse", "v2:sf!intx", "v1:confuse", "v2:confuse", "v1:prove1!intx", "v1:sfdev!reuse", "v1:sfdev!intx", "v2:rev2!inblock"} {
+	for _, need := range []string{"v2:pay!intx", "v1:pay!intx", "v2:pay!reuse", "v1:pay!reuse", "v2:reuse-gone", "v1:reuse-gone", "v2:sf!reuse", "v2:sf!intx", "v1:confuse", "v2:confuse", "v1:prove1!intx", "v1:sfdev!reuse", "v1:sfdev!intx", "v2:rev2!inblock", "v2:form2!zeroval"} {
 		if cells[need] == 0 {
 			c.Infra("vacuity: second-use cell %s never exercised", need)
 		}
